@@ -23,6 +23,7 @@ func init() {
 	evals["expad"] = evalExpad
 	evals["recwrites"] = evalRecwrites
 	evals["recreads"] = evalRecreads
+	evals["recreadc"] = func(args []string) string { return evalRecreadOpt(args, true) }
 	gens["C07"] = genC07
 }
 
@@ -191,7 +192,11 @@ func alertNumber(s string) string {
 // recread <suite> <mac> <key> <iv> <wire> <sent> : what the application reads from an established
 // connection fed with <wire>, and how reading ends: "<delivered> <status> <prefix>", prefix = 1 when the
 // delivered bytes are a prefix of <sent>.
-func evalRecread(args []string) string {
+func evalRecread(args []string) string { return evalRecreadOpt(args, false) }
+
+// recreadc: the same after the receiving side has half-closed its own direction (CloseWrite): a rejected record
+// must still end the connection with a fatal error
+func evalRecreadOpt(args []string, closeWriteFirst bool) string {
 	if len(args) != 6 {
 		return "bad-op"
 	}
@@ -207,6 +212,11 @@ func evalRecread(args []string) string {
 	c := gmtls.VerifEstablished(mc, false, suiteID(args[0]), mac, key, iv, mac, key, iv, &fixedRand{make([]byte, 4096)})
 	if c == nil {
 		return "bad-op"
+	}
+	if closeWriteFirst {
+		if err := c.CloseWrite(); err != nil {
+			return "ORACLE-FAIL:closewrite:" + strings.ReplaceAll(err.Error(), " ", "_")
+		}
 	}
 	var got []byte
 	buf := make([]byte, 5000)
@@ -443,8 +453,12 @@ func genC07(r *rng, tier string, emit func(string)) {
 		otherMac, otherKey := r.bytes(32), r.block16()
 		other, _ := doWrite(suite, otherMac, otherKey, iv, rnd, writes)
 		join := func(rs [][]byte) []byte { return bytes.Join(rs, nil) }
+		nread := 0
 		emitRead := func(rs [][]byte) {
 			emit(fmt.Sprintf("recread %s %s %s %s %s %s", suite, hx(mac), hx(key), hx(iv), hx(join(rs)), hx(sent)))
+			if nread++; nread%5 == 0 { // the same stream read by a side that has already half-closed
+				emit(fmt.Sprintf("recreadc %s %s %s %s %s %s", suite, hx(mac), hx(key), hx(iv), hx(join(rs)), hx(sent)))
+			}
 		}
 		cp := func() [][]byte {
 			o := make([][]byte, len(recs))
